@@ -101,6 +101,7 @@ func (p c03) Run(c *core.Ctx, idx int) {
 		model = norm(model)
 	}
 	c.Count("store_" + storeName)
+	defer func() { reportHooks(c, target) }()
 	nops := 1 + r.Intn(6)
 	var history []string
 	for op := 0; op < nops; op++ {
